@@ -19,12 +19,12 @@ def showH (l : List (Nat × Nat)) : String :=
   "H[" ++ ",".intercalate (l.map fun p => s!"{p.1}#{p.2}") ++ "]"
 
 /-- run the op tokens; collects (model output, spec output) per op and the ids seen -/
-def runOps : State → List Nat → List String → Option (List String × List String × State × List Nat)
-  | s, ids, [] => some ([], [], s, ids)
-  | s, ids, tok :: rest =>
+def runOps : State → List Nat → List Nat → List String → Option (List String × List String × State × List Nat)
+  | s, ids, pend, [] => if pend.isEmpty then some ([], [], s, ids) else none   -- a mark still in flight at the end
+  | s, ids, pend, tok :: rest =>
     let c := tok.toList.headD ' '
     let arg := (tok.drop 1).toString
-    let step : Option (State × String × List Nat) :=
+    let step : Option (State × String × List Nat × List Nat) :=
       if c == 'a' || c == 'r' || c == 'p' then
         match parseObjs arg with
         | none => none
@@ -38,9 +38,9 @@ def runOps : State → List Nat → List String → Option (List String × List 
           let sReg := os.foldl (fun (st : State) o => match st.reg o.id with
             | some _ => st
             | none => { st with reg := upd st.reg o.id (some (o.addr, o.main)) }) s
-          if c == 'a' then some (add sReg os, "", ids')
-          else if c == 'r' then some (remove sReg os, "", ids')
-          else some (replaceAll sReg os, "", ids')
+          if c == 'a' then some (add sReg os, "", ids', pend)
+          else if c == 'r' then some (remove sReg os, "", ids', pend)
+          else some (replaceAll sReg os, "", ids', pend)
       else if c == 'h' || c == 'u' then
         match arg.toNat? with
         | none => none
@@ -48,27 +48,52 @@ def runOps : State → List Nat → List String → Option (List String × List 
           match s.reg i with
           | none => none
           | some (a, m) =>
+            if pend.contains i then none else      -- one mark per object at a time
             let (s', r) := mark s { id := i, addr := a, main := m } (c == 'h')
-            some (s', if r then "t" else "f", ids)
+            some (s', if r then "t" else "f", ids, pend)
+      else if c == 'H' || c == 'U' then
+        -- first half of a mark (`cstep … (.cas o p)`): the CAS, then parked in front of the lock
+        match arg.toNat? with
+        | none => none
+        | some i =>
+          match s.reg i with
+          | none => none
+          | some (a, m) =>
+            if pend.contains i then none
+            else if s.flag i == (c == 'H') then some (s, "f", ids, pend)
+            else some (markCas s { id := i, addr := a, main := m } (c == 'H'), "c", ids, i :: pend)
+      else if c == 'Y' then
+        -- its second half (`cstep … (.apply o)`)
+        match arg.toNat? with
+        | none => none
+        | some i =>
+          match s.reg i with
+          | none => none
+          | some (a, m) =>
+            if !pend.contains i then none else
+            let (s', r) := markApply s { id := i, addr := a, main := m } (s.flag i)
+            some (s', if r then "t" else "f", ids, pend.filter (· != i))
       else none
     match step with
     | none => none
-    | some (s', ret, ids') =>
-      match runOps s' ids' rest with
+    | some (s', ret, ids', pend') =>
+      match runOps s' ids' pend' rest with
       | none => none
-      | some (ms, ss, sf, idf) => some ((ret ++ showH (healthy s')) :: ms, showH (usableSpec s') :: ss, sf, idf)
+      | some (ms, ss, sf, idf) =>
+        -- with a mark in flight the usable hosts may lag behind the flag: the specification speaks at rest
+        some ((ret ++ showH (healthy s')) :: ms, (if pend'.isEmpty then showH (usableSpec s') else "~") :: ss, sf, idf)
 
 def showRemoved (s : State) (ids : List Nat) : String :=
   let r := (ids.eraseDups.filter (fun i => s.removed i))
   let sorted := r.foldr (fun x acc => (acc.takeWhile (· < x)) ++ x :: (acc.dropWhile (· < x))) []
   "X[" ++ ",".intercalate (sorted.map toString) ++ "]"
 
-def stripRet (s : String) : String := if s.startsWith "t" || s.startsWith "f" then (s.drop 1).toString else s
+def stripRet (s : String) : String := if s.startsWith "t" || s.startsWith "f" || s.startsWith "c" then (s.drop 1).toString else s
 
 def handle (kind : String) (args : List String) (impl : String) : String :=
   match kind, args with
   | "c15.set", toks =>
-    match runOps init [] toks with
+    match runOps init [] [] toks with
     | none => "bad-op"
     | some (ms, ss, sf, ids) =>
       let m := "|".intercalate ms ++ " " ++ showRemoved sf ids
@@ -76,7 +101,8 @@ def handle (kind : String) (args : List String) (impl : String) : String :=
       -- preferred tier (computed from the model's membership/flags, not from its healthy maps), and no
       -- member's removal latch is closed while every removed member's is
       let implH := ((impl.splitOn " X[").headD "").splitOn "|" |>.map stripRet
-      let sp := if implH == ss then "" else s!"usable-hosts expected={"|".intercalate ss}"
+      let agree := implH.length == ss.length && (implH.zip ss).all fun (i, e) => e == "~" || i == e
+      let sp := if agree then "" else s!"usable-hosts expected={"|".intercalate ss}"
       let d := if impl == m then "" else s!"DIFF model={m} impl={impl}"
       let spS := if sp == "" then "" else s!"SPEC {sp} impl={impl}"
       if d == "" && spS == "" then "ok" else d ++ (if d != "" && spS != "" then " ; " else "") ++ spS
